@@ -63,6 +63,10 @@ def gen_case(rng, coarse=False):
         mean = mean + rng.uniform(0.05, 0.6) * (a0 - base) * np.exp(-0.5 * ((lf - c) / rng.uniform(0.05, 0.3)) ** 2)
     mean = np.maximum(mean, 0.05)
     mean[p] = max(mean[p], np.max(mean) * (1.0 + 1e-3)) if rng.random() < 0.8 else mean[p]
+    flat_top = rng.random() < 0.15
+    if flat_top and p + 2 < f.size:
+        w = int(rng.integers(2, 4))                       # a flat-topped main peak: 2-3 samples of exactly equal height
+        mean[p:p + w] = mean[p]
     theta = [3.0, 2.5, 2.0, 1.78, 1.58][min(4, sum(f0 >= e for e in (0.2, 0.5, 1.0, 2.0)))]
     target = float(rng.choice([theta, 2.0, 3.0])) * float(rng.choice([0.8, 0.97, 1.0, 1.03, 1.3]))
     std = np.log(target) * (1 + 0.15 * np.sin(3 * lf + rng.uniform(0, 6))) * np.ones_like(f)
